@@ -5,6 +5,7 @@ import Driver.RangeOps
 import Driver.GeomOps
 import Driver.MgrOps
 import Driver.IdOps
+import Driver.FlogOps
 /-
   Line-protocol driver: one operation per input line, one canonical result line per operation.
   Imports Model only (core Lean), so it links as a `lean_exe`.
@@ -37,6 +38,9 @@ def step (st : St) (line : String) : St × String :=
   | none =>
   match idOps st.ids w with
   | some (i, r) => ({ st with ids := i }, r)
+  | none =>
+  match flogOps w with
+  | some r => (st, r)
   | none => (st, "bad-op")
 
 partial def loop (h : IO.FS.Stream) (out : IO.FS.Stream) (st : St) : IO Unit := do
